@@ -787,6 +787,10 @@ class Gen:
                                 self.tags.add("join:on-nonequi")
                             else:
                                 self.tags.add("join:on-equi")
+                if f.get("join_no_on") and on is not None and kind in ("JOIN", "INNER JOIN") and self.chance(f["join_no_on"]):
+                    # a join without criteria (text-level workloads only; several dialects accept it)
+                    on = None
+                    self.tags.add("join:no-criteria")
                 q.joins.append((kind, src, on, using))
                 if kind in ("SEMI JOIN", "ANTI JOIN"):
                     continue  # right side not visible afterwards
